@@ -4,6 +4,7 @@ import Nlmodel.Driver.Instrumented
 import Nlmodel.Driver.Tables
 import Nlmodel.Driver.ObjOps
 import Nlmodel.Driver.TreeGen
+import Nlmodel.Model.Session
 open Nl
 
 /-- character classes: loaded from the table dumped by the harness from Rust's std
@@ -104,6 +105,10 @@ def handle (cc : CharClass) (line : String) : String :=
     | some t => hexText (escape t)
     | none => "bad-hex"
   | ["sepcount"] => toString sepTable.length
+  | "session" :: b :: hs =>
+    match hs.mapM unhexText with
+    | some ls => " ;; ".intercalate ((Session.lines cc b.toNat! {} ls).map Obs.show)
+    | none => "bad-hex"
   | ["tables"] => modelTables
   | "obj" :: rest => handleObj rest
   | ["evalx", b, h] =>
